@@ -253,7 +253,7 @@ func oracle(c *Case, o *Obs) (string, string) {
 		return "the error says the step limit was exceeded but errors.Is(err, ErrExceedMaxSteps) is false", "sentinel-not-matchable"
 	}
 	if p.MsgCancel && !p.Is[3] {
-		return "the error says the context was cancelled but errors.Is(err, context.Canceled) is false", "sentinel-not-matchable"
+		return "the error says the context was cancelled but errors.Is(err, <the context's error>) is false", "sentinel-not-matchable"
 	}
 	// whatever failed, the path the error names is a path of nodes that exist
 	if !realPath(c.G, p.MsgPath, anyNested(c)) {
@@ -378,6 +378,9 @@ func tagsOf(c *Case, o *Obs) []string {
 	t = append(t, fmt.Sprintf("faults:%d", nf), fmt.Sprintf("maxpar:%d", maxPar))
 	if c.CancelBefore {
 		t = append(t, "has:cancel-before")
+		if c.Deadline {
+			t = append(t, "has:deadline-passed")
+		}
 	}
 	if c.InErr != nil {
 		t = append(t, "has:input-error-item")
